@@ -326,6 +326,15 @@ pub fn scenarios(prop: &str, tier: &str) -> Vec<Arc<dyn Scenario>> {
                     seeds_upto(1),
                     OracleKind::C02,
                 ));
+                // key-value separated tree: its own get / scan entry points resolve the snapshot's version
+                v.push(std(
+                    "C02-blob-111-special",
+                    TreeCfg::small(keys_ab()).with_blob(1),
+                    a.clone(),
+                    bs(1, 1, 1, 0, 1),
+                    seeds_upto(1),
+                    OracleKind::C02,
+                ));
             } else {
                 v.push(std(
                     "C02-empty-322",
@@ -381,6 +390,27 @@ pub fn scenarios(prop: &str, tier: &str) -> Vec<Arc<dyn Scenario>> {
                 let mut ar = af.clone();
                 ar.extra = vec![Op::Seq { ops: vec![Op::Put { k: 0, big: true }, Op::Put { k: 1, big: true }, Op::Flush { w: Wm::Tight }] }];
                 v.push(std("C04-blob-relocating", cr, ar, bd, vec![vec![]], OracleKind::C04));
+            }
+            {
+                // merges that do not involve L0 (newest table ids end up below older tables), reopen anywhere
+                let mut ad = Alphabet::default();
+                ad.put_f = true;
+                ad.del_f = true;
+                ad.pulldown = vec![(0, 1), (1, 2)];
+                ad.movedown = vec![(0, 1)];
+                ad.wms = vec![Wm::Zero];
+                ad.reopen = true;
+                let bd = if quick { bs(2, 2, 0, 1, 0) } else { bs(4, 3, 0, 2, 0) };
+                v.push(std("C04-deep-levels", TreeCfg::small(keys_ab()), ad, bd, vec![vec![]], OracleKind::C04));
+                // flushes whose whole content is evicted (value + weak delete under a tight watermark):
+                // a version change that writes no table, then reopen
+                let mut aw = Alphabet::default();
+                aw.wdel_discipline = true;
+                aw.flush = true;
+                aw.wms = vec![Wm::Tight, Wm::Zero];
+                aw.reopen = true;
+                let bw = if quick { bs(3, 2, 0, 1, 0) } else { bs(4, 3, 0, 2, 0) };
+                v.push(std("C04-evicting-flush", TreeCfg::small(keys_ab()), aw, bw, vec![vec![]], OracleKind::C04));
             }
             if quick {
                 v.push(std(
